@@ -193,6 +193,20 @@ func (p *gcpPicker) getSubConnRef(boundKey string) (*subConnRef, error) {
 	return p.getLeastBusySubConnRef()
 }
 
+// leastBusyReady returns the ready subConnRef with the fewest active streams or
+// nil if the picker has no ready subconns. It takes no locks.
+func (p *gcpPicker) leastBusyReady() *subConnRef {
+	var minScRef *subConnRef
+	var minStreamsCnt int32
+	for _, scRef := range p.scRefs {
+		if cnt := scRef.getStreamsCnt(); minScRef == nil || cnt < minStreamsCnt {
+			minStreamsCnt = cnt
+			minScRef = scRef
+		}
+	}
+	return minScRef
+}
+
 // Must be called holding the picker mutex lock.
 func (p *gcpPicker) getLeastBusySubConnRef() (*subConnRef, error) {
 	minScRef := p.scRefs[0]
